@@ -439,6 +439,47 @@ def r14b(ctx, f, specs, groups):
     ctx.floor("R14b", n, 10, "alias/meaning obligations evaluated")
 
 
+def r14g(ctx):
+    m = ctx.model
+    ctx.rule("R14g", "the command loads files the way the library does: main only ever calls build_tree_handling_errors, library "
+                     "users call Filetype.build_tree; so every concrete build_tree_handling_errors must take its tree from "
+                     "`self.build_tree(path, options)` - the same method, with the caller's path and options - and return it "
+                     "unchanged.  A handler that goes to another loader (the module-level function, a sibling type) silently "
+                     "skips what the method adds (YAML and plist reset `quoted` on every string)")
+    n = 0
+    seen = set()
+    for q, info in sorted(m.filetypes().items()):
+        f = m.method(q, "build_tree_handling_errors")
+        if f is None or f.qual in seen:
+            continue
+        seen.add(f.qual)
+        if "abstractmethod" in " ".join(ast.unparse(d) for d in f.node.decorator_list):
+            continue
+        ps = func_params(f.node)
+        path_p, opt_p = (ps[1], ps[2]) if len(ps) >= 3 else (None, None)
+        rets = [r for r in walk_no_nested(f.node) if isinstance(r, ast.Return) and r.value is not None
+                and not any(isinstance(a, ast.ExceptHandler) for a in ancestors(r))]
+        n += 1
+        good = []
+        for r in rets:
+            v = resolve_local(f.node, r.value)
+            ok = isinstance(v, ast.Call) and isinstance(v.func, ast.Attribute) and dotted(v.func.value) == "self" and v.func.attr == "build_tree"
+            if ok:
+                a_path = kwarg(v, "path", 0)
+                a_opt = kwarg(v, "options", 1)
+                ok = dotted(a_path) == path_p and dotted(a_opt) == opt_p
+            good.append(ok)
+        if rets and all(good):
+            ctx.proved("R14g", f.file, f.short, rets[0], f"{f.short} loader", "returns self.build_tree(path, options) unchanged")
+        else:
+            bad = rets[good.index(False)] if rets and False in good else f.node
+            ctx.violation("R14g", f.file, f.short, bad, f"{f.short} loader",
+                          f"`{norm(bad, 70)}`: the tree the command line gets does not come from `self.build_tree({path_p}, {opt_p})`, "
+                          f"the method library users call - whatever that method does besides parsing (post-processing of the "
+                          f"tree, option handling) is skipped for the command only, so the two entry points can print different results")
+    ctx.floor("R14g", n, 6, "build_tree_handling_errors implementations")
+
+
 def r14c(ctx):
     m = ctx.model
     ctx.rule("R14c", "get_filetype consults the path (mimetypes.guess_type) only when no MIME type was given, and "
@@ -650,6 +691,7 @@ def run(ctx):
     r14d(ctx, f, specs)
     r14e(ctx)
     r14f(ctx)
+    r14g(ctx)
     ctx.assume("where options may be placed relative to the two file names (argparse's intermixed parsing) and whether --quiet "
                "silences third-party progress bars on stderr are not part of what is decided")
     ctx.assume("argparse semantics (dest derivation, store_const, mutually exclusive groups) as documented")
